@@ -4,10 +4,11 @@ NoDev == {}
 AsWas == {"cmn-mode-sticks"}
 DevSums == {"short-reset-keeps-sums"}
 DevBeams == {"beams-not-restored"}
+DevStatic == {"static-cache"}
 Thr == {"a2"}
 \* graph export for the tours: the op labels are what matters; the state identity hides `seen'
 \* (the CMN history is reduced to how it began and how many utterances it holds, as hidden state is a function of it)
 Red(s) == [i \in Inst |-> IF s[i].alive THEN [s[i] EXCEPT !.cmn = <<s[i].cmn[1], Len(s[i].cmn)>>, !.cmn0 = <<>>] ELSE s[i]]
-TourView == <<Red(st), nops>>
+TourView == <<Red(st), nops>>      \* (glob is constant 0 without deviations)
 DumpEdge == PrintT(<<"EDGE", ToJson([f |-> ToString(<<Red(st), nops>>), a |-> last', t |-> ToString(<<Red(st'), nops'>>)])>>)
 ====
